@@ -29,6 +29,7 @@ def table(name):
 
 def write_all():
     common.use_repo()
+    common.write_driver_all()
     notes = {}
     for name, fn in TABLES:
         try:
